@@ -463,8 +463,37 @@ impl Monitor {
                     instance,
                     launch_failed,
                     worker,
+                    rv,
                     ..
                 } => {
+                    // C05: a task only starts where the worker's remaining lifetime covers the
+                    // time request of the variant it starts with (lifetime from the scenario, age
+                    // from the simulation clock)
+                    if self.on(Prop::C05)
+                        && let Some(limit_s) = sys.sc.workers.get(*slot as usize).and_then(|w| w.time_limit_s)
+                    {
+                        let remaining_ms = (limit_s * 1000).saturating_sub(sys.worker_age_ms(*slot));
+                        let rq_id = pre
+                            .and_then(|p| p.core.tasks.iter().find(|t| t.id == *task))
+                            .or_else(|| post.core.tasks.iter().find(|t| t.id == *task))
+                            .map(|t| t.rq_id);
+                        let table = sys.server.request_table();
+                        if let Some(min_ms) = rq_id
+                            .and_then(|r| table.get(r as usize))
+                            .and_then(|vs| vs.get(*rv as usize))
+                            .map(|v| v.min_time_ms)
+                            && remaining_ms < min_ms
+                        {
+                            self.v(
+                                Prop::C05,
+                                "started-without-enough-lifetime",
+                                "worker.start",
+                                format!(
+                                    "task {task} (time request {min_ms} ms) launched on worker {worker} whose remaining lifetime is {remaining_ms} ms"
+                                ),
+                            );
+                        }
+                    }
                     // C03: never launched before all dependencies finished
                     if let Some(ds) = self.s.deps.get(task).cloned() {
                         for d in ds {
